@@ -100,3 +100,39 @@ Theorem C08_find_all_sorted_window_index_order :
 Proof. exact find_all_refines. Qed.
 Print Assumptions C08_find_all_sorted_window_index_order.
 
+
+(* ---- adequacy of the abstract specification S (Proofs/SpecAdequacyProofs.v): consequences of a_step alone, no store, model or refinement lemma ---- *)
+From Coq Require Import Permutation Sorted.
+From Clover Require Import HistoryProofs CompositeSpec CompositeProofs IndexIndepProofs AbstractSpecProofs SpecAdequacyProofs.
+Theorem C08_spec_sorted_window : forall a q mode t a' nq sc,
+  a_closed a = false -> a_step (OFindAll q mode) a t a' ->
+  normalize_query (mk_query q) = Some nq -> nq_sort nq <> [] ->
+  assoc (nq_coll nq) (a_db a) = Some sc ->
+  a' = a /\
+  exists res l0, t = T_ok (T_of_docs (nq_sort nq) mode res) /\
+    res = window (nq_skip nq) (nq_limit nq) l0 /\
+    Permutation l0 (filter (sat_opt (nq_crit nq)) (map snd (sc_docs sc))) /\
+    StronglySorted (docs_le_nil (nq_sort nq)) l0.
+Proof. exact spec_find_all_sorted_window. Qed.
+Print Assumptions C08_spec_sorted_window.
+
+Theorem C08_spec_sorted_answers_tie : forall m a q mode1 mode2 t1 a1 t2 a2 nq sc,
+  a_closed a = false -> a_step (OFindAll q mode1) a t1 a1 -> a_step (OFindAll q mode2) a t2 a2 ->
+  normalize_query (mk_query q) = Some nq -> nq_sort nq <> [] ->
+  assoc (nq_coll nq) (a_db a) = Some sc ->
+  (forall d, In d (map snd (sc_docs sc)) -> sat_opt (nq_crit nq) d = true -> doc_regime m (nq_sort nq) d) ->
+  exists res1 res2,
+    t1 = T_ok (T_of_docs (nq_sort nq) mode1 res1) /\ t2 = T_ok (T_of_docs (nq_sort nq) mode2 res2) /\
+    length res1 = length res2 /\
+    Forall2 (fun x y => docs_le_nil (nq_sort nq) x y /\ docs_le_nil (nq_sort nq) y x) res1 res2.
+Proof. exact spec_find_all_sorted_answers_tie. Qed.
+Print Assumptions C08_spec_sorted_answers_tie.
+
+Theorem C08_spec_ties_need_regime :
+  exists t1 t2 res1 res2,
+    a_step (OFindAll tw_q 2) tw_a t1 tw_a /\ a_step (OFindAll tw_q 2) tw_a t2 tw_a /\
+    t1 = T_ok (T_of_docs [(RProofs.ex_f, 1)] 2 res1) /\ t2 = T_ok (T_of_docs [(RProofs.ex_f, 1)] 2 res2) /\
+    t1 <> t2 /\
+    ~ Forall2 (fun x y => docs_le_nil [(RProofs.ex_f, 1)] x y /\ docs_le_nil [(RProofs.ex_f, 1)] y x) res1 res2.
+Proof. exact spec_sorted_ties_need_regime. Qed.
+Print Assumptions C08_spec_ties_need_regime.
